@@ -168,3 +168,49 @@ Definition d23_class (m : BeatmapV) : bool :=
 
 (* the body lines of a section: everything after its header line *)
 Definition body (ls : list line) : list line := tl ls.
+
+(* ---------- C03: representable edits, and what reading a map back yields ---------- *)
+
+(* [Representable]: the edit sets its field to a value the format can represent *)
+Definition representable (e : edit) (m : BeatmapV) : bool :=
+  match e with
+  | EdVersion v => i32_ok v
+  | EdAudioFile s => file_ok s
+  | EdAudioLeadIn x => lead_in_ok x
+  | EdPreviewTime n => i32_ok n
+  | EdStackLeniency x => in_lim32 x
+  | EdMode n => enum4_ok n
+  | EdLetterbox _ | EdWidescreen _ | EdEpilepsy _ | EdSamplesMatch _ => true
+  (* the special style exists in mania only *)
+  | EdSpecialStyle _ => g_mode (hov_general (bmv_ho m)) =? mode_mania
+  | EdCountdown n => enum4_ok n
+  (* a countdown offset is carried when positive; 0 is the default *)
+  | EdCountdownOffset n => i32_ok n && (0 <=? n)
+  | EdBookmarks l => forallb raw_i32_ok l
+  | EdDistanceSpacing x | EdTimelineZoom x => in_lim64 x
+  | EdBeatDivisor n | EdGridSize n => i32_ok n
+  | EdTitle s | EdTitleUnicode s | EdArtist s | EdArtistUnicode s
+  | EdCreator s | EdVersionName s | EdSource s | EdTags s => str_ok s
+  (* ids are carried when positive *)
+  | EdBeatmapId n | EdBeatmapSetId n => i32_ok n && (0 <? n)
+  | EdHp x | EdCs x | EdOd x | EdAr x => in_lim32 x
+  | EdSliderMultiplier x => in_lim64 x && within64 slider_mult_lo slider_mult_hi x
+  | EdSliderTickRate x => in_lim64 x && within64 tick_rate_lo tick_rate_hi x
+  | EdBackground s => bg_ok s
+  | EdBreaks l => forallb break_ok l
+  | EdComboColors l => forallb color_ok l
+  | EdCustomColors l =>
+      forallb (fun x => color_name_ok (cc_name x) && color_ok (cc_color x)) l && distinct_names l
+  end.
+
+(* the map as it is read back from its own encoding, for the six simple sections:
+   [carry] of DESIGN C02 restricted to them (timing points and hit objects are kept) *)
+Definition read_back (m : BeatmapV) : BeatmapV :=
+  let h := bmv_ho m in
+  mkBMV (bmv_version m) (bmv_editor m) (carry_metadata (bmv_metadata m)) (bmv_colors m)
+        (mkHOV (carry_general (hov_general h) (hov_control_points h)) (carry_difficulty (hov_difficulty h))
+               (hov_events h) (hov_control_points h) (hov_hit_objects h)).
+
+(* the special style is carried in mania only: a mode edit may change whether it is *)
+Definition without_special (m : BeatmapV) : BeatmapV :=
+  upd_general (fun g => set_g_special_style g false) m.
